@@ -18,9 +18,9 @@ def DiffOK (diff : Tree → Tree → List Change) : Prop :=
 
 /-- invariant of the index directory: for every recorded branch, the branch-restricted view is the tree of the
     recorded commit -/
-def Inv (idx : Index) : Prop :=
+def Inv (I : Ignore) (idx : Index) : Prop :=
   RepoWF idx.snap ∧ (∀ s ∈ idx.shards, KeysPW s.docs) ∧
-  ∀ b ∈ idx.brs, ViewIsHead (head idx.snap b) (idx.cnt b)
+  ∀ b ∈ idx.brs, ViewIsHeadIg (head idx.snap b) (I.ig (head idx.snap b)) (idx.cnt b)
 
 theorem repoWF_nil : RepoWF [] := by
   intro b; simp [head, TreeWF]
@@ -33,23 +33,23 @@ theorem repoWF_commit (r : Repo) (b : Branch) (t : Tree) (hr : RepoWF r) (ht : T
   · exact ht
   · exact hr c
 
-theorem inv_empty : Inv Index.empty := by
+theorem inv_empty (I : Ignore) : Inv I Index.empty := by
   refine ⟨repoWF_nil, ?_, ?_⟩ <;> simp [Index.empty]
 
 /-- a normal build establishes the invariant -/
-theorem inv_fullBuild (r : Repo) (brs : List Branch) (hr : RepoWF r) : Inv (fullBuild r brs) := by
+theorem inv_fullBuild (I : Ignore) (r : Repo) (brs : List Branch) (hr : RepoWF r) : Inv I (fullBuild I r brs) := by
   refine ⟨hr, ?_, ?_⟩
   · intro s hs
     simp only [fullBuild, List.mem_singleton] at hs
     subst hs
-    exact keys_collect r brs
+    exact keys_collect I r brs
   · intro b hb p x
     simp only [fullBuild] at hb
     simp only [fullBuild, Index.cnt, Shard.cnt, List.map_cons, List.map_nil, List.sum_cons, List.sum_nil,
       List.not_mem_nil, if_false, Nat.add_zero]
-    rw [cntFiles_eq _ (keys_collect r brs)]
-    have := has_collect r brs hr b p x
-    by_cases h : fblob (head r b) p = some x <;> simp [this, hb, h]
+    rw [cntFiles_eq _ (keys_collect I r brs)]
+    have := has_collect I r brs hr b p x
+    by_cases h : fblob (head r b) p = some x ∧ I.ig (head r b) p = false <;> simp [this, hb, h]
 
 theorem sum_tombstoned (shards : List Shard) (ch : List Path) (b : Branch) (p : Path) (x : Blob) :
     ((shards.map fun s => (⟨s.docs, s.tombs ++ ch⟩ : Shard)).map fun s => s.cnt b p x).sum =
@@ -80,10 +80,10 @@ theorem cnt_deltaBuild (diff : Tree → Tree → List Change) (idx : Index) (r :
 /-- **the delta step**: tombstoning the changed paths in every older shard and stacking the re-collected documents
     turns the view of the recorded commits into the view of the current heads -/
 theorem delta_view (diff : Tree → Tree → List Change) (hd : DiffOK diff) (idx : Index) (r : Repo)
-    (hinv : Inv idx) (hr : RepoWF r) (b : Branch) (hb : b ∈ idx.brs) :
+    (hsw : RepoWF idx.snap) (hview : ∀ b ∈ idx.brs, ViewIsHead (head idx.snap b) (idx.cnt b))
+    (hr : RepoWF r) (b : Branch) (hb : b ∈ idx.brs) :
     ViewIsHead (head r b) ((deltaBuild diff idx r).cnt b) := by
   intro p x
-  obtain ⟨hsw, _, hview⟩ := hinv
   have hk : KeysPW (prepareDelta diff idx.snap r idx.brs).1 := by
     rw [prepareDelta_eq]; exact keys_prepareLoop _ _ _ _ _ _ keys_nil
   have hH := has_prepareLoop diff idx.snap r idx.brs idx.brs ([], []) b p x
@@ -176,41 +176,92 @@ theorem delta_view (diff : Tree → Tree → List Change) (hd : DiffOK diff) (id
       rw [hfo]
       simp [this]
 
+/-- when the ignore file blocks no delta build, neither the recorded nor the current tree of any indexed branch has
+    an ignore file -/
+theorem no_ignore_file (I : Ignore) (diff : Tree → Tree → List Change) (hd : DiffOK diff) (snap r : Repo)
+    (brs : List Branch) (hsw : RepoWF snap) (hr : RepoWF r)
+    (hblock : ignoreBlocksDelta I diff snap r brs = false) (b : Branch) (hb : b ∈ brs) :
+    fget (head snap b) I.path = none ∧ fget (head r b) I.path = none := by
+  unfold ignoreBlocksDelta at hblock
+  rw [Bool.or_eq_false_iff] at hblock
+  obtain ⟨h1, h2⟩ := hblock
+  have h1' := List.any_eq_false.mp h1 b hb
+  have h2' := List.any_eq_false.mp h2 b hb
+  have hcur : fget (head r b) I.path = none := by
+    cases h : fget (head r b) I.path with
+    | none => rfl
+    | some e => rw [h] at h1'; simp at h1'
+  refine ⟨?_, hcur⟩
+  cases hold : fget (head snap b) I.path with
+  | none => rfl
+  | some e =>
+    exfalso
+    obtain ⟨hv1, hv2⟩ := hd _ _ (hsw b) (hr b)
+    have hne : tget (head snap b) I.path ≠ tget (head r b) I.path := by
+      intro heq
+      unfold fget at hold hcur
+      rw [heq, hcur] at hold
+      cases hold
+    obtain ⟨c, hc, hp⟩ := hv2 _ hne
+    have ho : fileSide c.old = some e := by
+      rw [(hv1 c hc).1, hp]; exact hold
+    apply h2'
+    apply List.any_eq_true.mpr
+    exact ⟨c, hc, by simp [hp, ho]⟩
+
 /-- a delta build preserves the invariant -/
-theorem inv_deltaBuild (diff : Tree → Tree → List Change) (hd : DiffOK diff) (idx : Index) (r : Repo)
-    (hinv : Inv idx) (hr : RepoWF r) : Inv (deltaBuild diff idx r) := by
-  refine ⟨hr, ?_, fun b hb => delta_view diff hd idx r hinv hr b hb⟩
-  intro s hs
-  simp only [deltaBuild, List.mem_append, List.mem_map] at hs
-  rcases hs with ⟨s0, hs0, rfl⟩ | hs
-  · exact hinv.2.1 s0 hs0
-  · split at hs
-    · simp at hs
-    · simp only [List.mem_singleton] at hs
-      subst hs
-      rw [prepareDelta_eq]; exact keys_prepareLoop _ _ _ _ _ _ keys_nil
+theorem inv_deltaBuild (I : Ignore) (hI : I.WF) (diff : Tree → Tree → List Change) (hd : DiffOK diff) (idx : Index)
+    (r : Repo) (hinv : Inv I idx) (hr : RepoWF r)
+    (hblock : ignoreBlocksDelta I diff idx.snap r idx.brs = false) : Inv I (deltaBuild diff idx r) := by
+  have hno := no_ignore_file I diff hd idx.snap r idx.brs hinv.1 hr hblock
+  have hview : ∀ b ∈ idx.brs, ViewIsHead (head idx.snap b) (idx.cnt b) := by
+    intro b hb p x
+    rw [hinv.2.2 b hb p x, hI _ p (hno b hb).1]
+    simp
+  refine ⟨hr, ?_, ?_⟩
+  · intro s hs
+    simp only [deltaBuild, List.mem_append, List.mem_map] at hs
+    rcases hs with ⟨s0, hs0, rfl⟩ | hs
+    · exact hinv.2.1 s0 hs0
+    · split at hs
+      · simp at hs
+      · simp only [List.mem_singleton] at hs
+        subst hs
+        rw [prepareDelta_eq]; exact keys_prepareLoop _ _ _ _ _ _ keys_nil
+  · intro b hb p x
+    have hb' : b ∈ idx.brs := hb
+    have := delta_view diff hd idx r hinv.1 hview hr b hb' p x
+    show (deltaBuild diff idx r).cnt b p x = _
+    rw [this]
+    have hig : I.ig (head r b) p = false := hI _ p (hno b hb').2
+    show _ = if fblob (head r b) p = some x ∧ I.ig (head r b) p = false then 1 else 0
+    simp [hig]
 
 /-- after a run the index records exactly the requested branches at the current commits -/
-theorem indexRun_records (diff : Tree → Tree → List Change) (idx : Index) (r : Repo) (d : Bool) (thr : Nat)
-    (brs : List Branch) : (indexRun diff idx r d thr brs).brs = brs ∧ (indexRun diff idx r d thr brs).snap = r := by
+theorem indexRun_records (I : Ignore) (diff : Tree → Tree → List Change) (idx : Index) (r : Repo) (d : Bool)
+    (thr : Nat) (brs : List Branch) :
+    (indexRun I diff idx r d thr brs).brs = brs ∧ (indexRun I diff idx r d thr brs).snap = r := by
   unfold indexRun
   split
   · rename_i h
     simp only [deltaOk, Bool.and_eq_true, beq_iff_eq] at h
-    exact ⟨h.1.2.2, rfl⟩
+    exact ⟨h.1.1.2.2, rfl⟩
   · exact ⟨rfl, rfl⟩
 
-theorem inv_indexRun (diff : Tree → Tree → List Change) (hd : DiffOK diff) (idx : Index) (r : Repo) (d : Bool)
-    (thr : Nat) (brs : List Branch) (hinv : Inv idx) (hr : RepoWF r) : Inv (indexRun diff idx r d thr brs) := by
+theorem inv_indexRun (I : Ignore) (hI : I.WF) (diff : Tree → Tree → List Change) (hd : DiffOK diff) (idx : Index)
+    (r : Repo) (d : Bool) (thr : Nat) (brs : List Branch) (hinv : Inv I idx) (hr : RepoWF r) :
+    Inv I (indexRun I diff idx r d thr brs) := by
   unfold indexRun
   split
-  · exact inv_deltaBuild diff hd idx r hinv hr
-  · exact inv_fullBuild r brs hr
+  · rename_i h
+    simp only [Bool.and_eq_true, Bool.not_eq_true'] at h
+    exact inv_deltaBuild I hI diff hd idx r hinv hr h.2
+  · exact inv_fullBuild I r brs hr
 
 /-- the invariant holds along every history -/
-theorem inv_history (diff : Tree → Tree → List Change) (hd : DiffOK diff) (evs : List Ev)
-    (hwf : ∀ e ∈ evs, EvWF e) (st : Repo × Index) (h : RepoWF st.1 ∧ Inv st.2) :
-    RepoWF (evs.foldl (step diff) st).1 ∧ Inv (evs.foldl (step diff) st).2 := by
+theorem inv_history (I : Ignore) (hI : I.WF) (diff : Tree → Tree → List Change) (hd : DiffOK diff) (evs : List Ev)
+    (hwf : ∀ e ∈ evs, EvWF e) (st : Repo × Index) (h : RepoWF st.1 ∧ Inv I st.2) :
+    RepoWF (evs.foldl (step I diff) st).1 ∧ Inv I (evs.foldl (step I diff) st).2 := by
   induction evs generalizing st with
   | nil => exact h
   | cons e es ih =>
@@ -221,42 +272,58 @@ theorem inv_history (diff : Tree → Tree → List Change) (hd : DiffOK diff) (e
     | commit b t =>
       have ht : EvWF (.commit b t) := hwf _ (by simp)
       exact ⟨repoWF_commit r b t h.1 ht, h.2⟩
-    | index d thr brs => exact ⟨h.1, inv_indexRun diff hd idx r d thr brs h.2 h.1⟩
+    | index d thr brs => exact ⟨h.1, inv_indexRun I hI diff hd idx r d thr brs h.2 h.1⟩
 
 /-- **C13** — for every history of commits and indexing runs (normal and delta, in any mix, with any fall-backs),
     right after an indexing run of branches `brs`: for every indexed branch `b`, every path `p` and content `x`,
-    a search restricted to `b` sees exactly one document (p, x) if the head commit of `b` has file `x` at `p`,
-    and none otherwise (absent path, or any other content). -/
-theorem C13_view_eq_head (diff : Tree → Tree → List Change) (hd : DiffOK diff) (evs : List Ev)
-    (hwf : ∀ e ∈ evs, EvWF e) (d : Bool) (thr : Nat) (brs : List Branch) (b : Branch) (hb : b ∈ brs) :
-    ViewIsHead (head (runHistory diff (evs ++ [.index d thr brs])).1 b)
-      ((runHistory diff (evs ++ [.index d thr brs])).2.cnt b) := by
+    a search restricted to `b` sees exactly one document (p, x) if the head commit of `b` has file `x` at `p`
+    (and the head's ignore file, if any, does not exclude `p`), and none otherwise (absent path, any other
+    content, excluded path). -/
+theorem C13_view_eq_head (I : Ignore) (hI : I.WF) (diff : Tree → Tree → List Change) (hd : DiffOK diff)
+    (evs : List Ev) (hwf : ∀ e ∈ evs, EvWF e) (d : Bool) (thr : Nat) (brs : List Branch) (b : Branch)
+    (hb : b ∈ brs) :
+    ViewIsHeadIg (head (runHistory I diff (evs ++ [.index d thr brs])).1 b)
+      (I.ig (head (runHistory I diff (evs ++ [.index d thr brs])).1 b))
+      ((runHistory I diff (evs ++ [.index d thr brs])).2.cnt b) := by
   unfold runHistory
   rw [List.foldl_append]
-  have h := inv_history diff hd evs hwf ([], Index.empty) ⟨repoWF_nil, inv_empty⟩
-  generalize evs.foldl (step diff) ([], Index.empty) = st at h
+  have h := inv_history I hI diff hd evs hwf ([], Index.empty) ⟨repoWF_nil, inv_empty I⟩
+  generalize evs.foldl (step I diff) ([], Index.empty) = st at h
   obtain ⟨r, idx⟩ := st
   simp only [List.foldl_cons, List.foldl_nil, step]
-  have hi := inv_indexRun diff hd idx r d thr brs h.2 h.1
-  obtain ⟨h1, h2⟩ := indexRun_records diff idx r d thr brs
+  have hi := inv_indexRun I hI diff hd idx r d thr brs h.2 h.1
+  obtain ⟨h1, h2⟩ := indexRun_records I diff idx r d thr brs
   have := hi.2.2 b (by rw [h1]; exact hb)
   rw [h2] at this
   exact this
 
+/-- without an ignore file in the head of `b`: exactly the files of the head commit -/
+theorem C13_view_eq_head_no_ignore (I : Ignore) (hI : I.WF) (diff : Tree → Tree → List Change) (hd : DiffOK diff)
+    (evs : List Ev) (hwf : ∀ e ∈ evs, EvWF e) (d : Bool) (thr : Nat) (brs : List Branch) (b : Branch)
+    (hb : b ∈ brs) (hno : fget (head (runHistory I diff (evs ++ [.index d thr brs])).1 b) I.path = none) :
+    ViewIsHead (head (runHistory I diff (evs ++ [.index d thr brs])).1 b)
+      ((runHistory I diff (evs ++ [.index d thr brs])).2.cnt b) := by
+  intro p x
+  rw [C13_view_eq_head I hI diff hd evs hwf d thr brs b hb p x, hI _ p hno]
+  simp
+
+theorem repoWF_history (I : Ignore) (hI : I.WF) (diff : Tree → Tree → List Change) (hd : DiffOK diff)
+    (evs : List Ev) (hwf : ∀ e ∈ evs, EvWF e) (d : Bool) (thr : Nat) (brs : List Branch) :
+    RepoWF (runHistory I diff (evs ++ [.index d thr brs])).1 :=
+  (inv_history I hI diff hd _ (by
+    intro e he
+    rcases List.mem_append.mp he with he | he
+    · exact hwf e he
+    · simp only [List.mem_singleton] at he; subst he; trivial) ([], Index.empty) ⟨repoWF_nil, inv_empty I⟩).1
+
 /-- … which is the per-branch view a fresh full build of the same heads gives -/
-theorem C13_same_as_full_build (diff : Tree → Tree → List Change) (hd : DiffOK diff) (evs : List Ev)
-    (hwf : ∀ e ∈ evs, EvWF e) (d : Bool) (thr : Nat) (brs : List Branch) (b : Branch) (hb : b ∈ brs)
-    (p : Path) (x : Blob) :
-    (runHistory diff (evs ++ [.index d thr brs])).2.cnt b p x =
-      (fullBuild (runHistory diff (evs ++ [.index d thr brs])).1 brs).cnt b p x := by
-  rw [C13_view_eq_head diff hd evs hwf d thr brs b hb p x]
-  have hr : RepoWF (runHistory diff (evs ++ [.index d thr brs])).1 :=
-    (inv_history diff hd _ (by
-      intro e he
-      rcases List.mem_append.mp he with he | he
-      · exact hwf e he
-      · simp only [List.mem_singleton] at he; subst he; trivial) ([], Index.empty) ⟨repoWF_nil, inv_empty⟩).1
-  exact ((inv_fullBuild _ brs hr).2.2 b hb p x).symm
+theorem C13_same_as_full_build (I : Ignore) (hI : I.WF) (diff : Tree → Tree → List Change) (hd : DiffOK diff)
+    (evs : List Ev) (hwf : ∀ e ∈ evs, EvWF e) (d : Bool) (thr : Nat) (brs : List Branch) (b : Branch)
+    (hb : b ∈ brs) (p : Path) (x : Blob) :
+    (runHistory I diff (evs ++ [.index d thr brs])).2.cnt b p x =
+      (fullBuild I (runHistory I diff (evs ++ [.index d thr brs])).1 brs).cnt b p x := by
+  rw [C13_view_eq_head I hI diff hd evs hwf d thr brs b hb p x]
+  exact ((inv_fullBuild I _ brs (repoWF_history I hI diff hd evs hwf d thr brs)).2.2 b hb p x).symm
 
 /-- the model's own tree diff satisfies the assumption made of go-git's (so the theorems apply to the model the
     harness runs; go-git's diff is compared with it on every generated history) -/
@@ -326,47 +393,45 @@ theorem index_view_count (idx : Index) (b : Branch) (p : Path) (x : Blob) :
   | cons s rest ih => simp only [List.flatMap_cons, List.count_append, List.map_cons, List.sum_cons, ih, shard_view_count]
 
 /-- a view whose document counts are those of the head tree passes the executable statement -/
-theorem checkView_of_viewIsHead (t : Tree) (ht : TreeWF t) (view : List (Path × Blob))
-    (h : ViewIsHead t fun p x => view.count (p, x)) : checkView t view = true := by
+theorem checkView_of_viewIsHead (t : Tree) (ht : TreeWF t) (ign : Path → Bool) (view : List (Path × Blob))
+    (h : ViewIsHeadIg t ign fun p x => view.count (p, x)) : checkView t ign view = true := by
   unfold checkView
   simp only [Bool.and_eq_true, List.all_eq_true, Bool.or_eq_true, Bool.not_eq_true', beq_iff_eq]
   constructor
   · intro e he
     by_cases hf : e.2.isFile = true
-    · right
-      have h1 := h e.1 e.2.blob
-      simp only at h1
-      rw [h1]
-      have : fblob t e.1 = some e.2.blob :=
-        (fblob_eq_some _ _ _).mpr ⟨e.2, tget_of_mem t ht e.1 e.2 he, hf, rfl⟩
-      simp [this]
-    · left; simpa using hf
+    · by_cases hi : ign e.1 = true
+      · left; right; exact hi
+      · right
+        have h1 := h e.1 e.2.blob
+        simp only at h1
+        rw [h1]
+        have : fblob t e.1 = some e.2.blob :=
+          (fblob_eq_some _ _ _).mpr ⟨e.2, tget_of_mem t ht e.1 e.2 he, hf, rfl⟩
+        simp at hi
+        simp [this, hi]
+    · left; left; simpa using hf
   · intro d hd
     have hpos : 0 < view.count (d.1, d.2) := List.count_pos_iff.mpr hd
     have h1 := h d.1 d.2
     simp only at h1
     rw [h1] at hpos
-    by_cases hfb : fblob t d.1 = some d.2
+    by_cases hfb : fblob t d.1 = some d.2 ∧ ign d.1 = false
     · exact hfb
     · simp [hfb] at hpos
 
 /-- **C13 as evaluated by the driver**: after any history ending in an indexing run, the model's
     branch-restricted view passes `checkView` against the head tree -/
-theorem C13_checkView (evs : List Ev) (hwf : ∀ e ∈ evs, EvWF e) (d : Bool) (thr : Nat) (brs : List Branch)
-    (b : Branch) (hb : b ∈ brs) :
-    checkView (head (runHistory diffTrees (evs ++ [.index d thr brs])).1 b)
-      ((runHistory diffTrees (evs ++ [.index d thr brs])).2.view b) = true := by
-  have hr : RepoWF (runHistory diffTrees (evs ++ [.index d thr brs])).1 :=
-    (inv_history diffTrees diffTrees_valid _ (by
-      intro e he
-      rcases List.mem_append.mp he with he | he
-      · exact hwf e he
-      · simp only [List.mem_singleton] at he; subst he; trivial) ([], Index.empty) ⟨repoWF_nil, inv_empty⟩).1
-  apply checkView_of_viewIsHead _ (hr b)
+theorem C13_checkView (I : Ignore) (hI : I.WF) (evs : List Ev) (hwf : ∀ e ∈ evs, EvWF e) (d : Bool) (thr : Nat)
+    (brs : List Branch) (b : Branch) (hb : b ∈ brs) :
+    checkView (head (runHistory I diffTrees (evs ++ [.index d thr brs])).1 b)
+      (I.ig (head (runHistory I diffTrees (evs ++ [.index d thr brs])).1 b))
+      ((runHistory I diffTrees (evs ++ [.index d thr brs])).2.view b) = true := by
+  apply checkView_of_viewIsHead _ (repoWF_history I hI diffTrees diffTrees_valid evs hwf d thr brs b)
   intro p x
   show List.count (p, x) _ = _
   rw [index_view_count]
-  exact C13_view_eq_head diffTrees diffTrees_valid evs hwf d thr brs b hb p x
+  exact C13_view_eq_head I hI diffTrees diffTrees_valid evs hwf d thr brs b hb p x
 
 /-! non-vacuity: two branches share `a` (blob 1); branch 0 modifies it, deletes `b`, adds `c`; delta build.
     The old shard gets tombstones for paths 10 and 11, branch 1's unchanged copy of path 10 is re-added. -/
@@ -381,11 +446,22 @@ def exHistory : List Ev :=
    .commit 0 [(10, ⟨3, 0⟩), (12, ⟨4, 0⟩)],
    .index true 0 [0, 1]]
 
-example : (runHistory diffTrees exHistory).2.shards =
+/-- no ignore file in play (path 999 never occurs) -/
+def exNoIgnore : Ignore := ⟨999, fun _ _ => false⟩
+
+/-- ignore file at path 1; its content (blob 7) excludes path 11 -/
+def exIgnore : Ignore := ⟨1, fun t p => fblob t 1 == some 7 && p == 11⟩
+
+example : (runHistory exNoIgnore diffTrees exHistory).2.shards =
     [⟨[⟨10, 1, [0, 1]⟩, ⟨11, 2, [0]⟩], [10, 11]⟩,
      ⟨[⟨10, 3, [0, 0]⟩, ⟨10, 1, [1]⟩, ⟨12, 4, [0]⟩], []⟩] := by decide
-example : (runHistory diffTrees exHistory).2.view 0 = [(10, 3), (12, 4)] ∧
-    (runHistory diffTrees exHistory).2.view 1 = [(10, 1)] := by decide
+example : (runHistory exNoIgnore diffTrees exHistory).2.view 0 = [(10, 3), (12, 4)] ∧
+    (runHistory exNoIgnore diffTrees exHistory).2.view 1 = [(10, 1)] := by decide
+/-- with an ignore file the requested delta run falls back to a normal build, which leaves path 11 out -/
+example : (runHistory exIgnore diffTrees
+    [.commit 0 [(1, ⟨7, 0⟩), (10, ⟨1, 0⟩)], .index false 0 [0],
+     .commit 0 [(1, ⟨7, 0⟩), (10, ⟨1, 0⟩), (11, ⟨2, 0⟩), (12, ⟨3, 0⟩)], .index true 0 [0]]).2.shards =
+    [⟨[⟨1, 7, [0]⟩, ⟨10, 1, [0]⟩, ⟨12, 3, [0]⟩], []⟩] := by decide
 example : ∀ e ∈ exHistory, EvWF e := by decide
 
 end ZoektModel.C13
